@@ -3,7 +3,9 @@
 //! entries the harness put into `MODEL` - arbitrary names, kinds and depths.  What is modelled is
 //! walkdir's documented contract: entries come in a fixed order, the root is entry 0 at depth 0, an
 //! unreadable entry is an `Err`, `file_type()` reports a symbolic link as a link unless
-//! `follow_links(true)` was requested, `min_depth`/`max_depth` drop entries outside the range.
+//! `follow_links(true)` was requested, `min_depth`/`max_depth` drop entries outside the range, an entry at
+//! depth 2 is preceded by its parent directory, and `filter_entry` drops an entry and, for a directory,
+//! everything below it.
 //! Anything else of the API is absent on purpose: a source that starts using it stops compiling
 //! here and the check reports "inconclusive" instead of guessing.
 #![allow(static_mut_refs)]
@@ -104,6 +106,11 @@ pub struct IntoIter
     max_depth: usize,
     /// 0 = the root itself, i+1 = model entry i
     next: usize,
+    /// the parent directory of model entry `next - 1` has been yielded, the entry itself comes next
+    parent_done: bool,
+    /// set by skip_current_dir(): model entries below this directory (length of its name) are not yielded
+    skip_dir: Option<([u8; MAX_REL], usize)>,
+    last_was_dir: Option<([u8; MAX_REL], usize)>,
 }
 
 impl IntoIterator for WalkDir
@@ -118,7 +125,8 @@ impl IntoIterator for WalkDir
             MODEL.follow_links = self.follow_links;
             MODEL.root_matches = root.as_slice() == EXPECT_ROOT;
         }
-        IntoIter { root, follow_links: self.follow_links, min_depth: self.min_depth, max_depth: self.max_depth, next: 0 }
+        IntoIter { root, follow_links: self.follow_links, min_depth: self.min_depth, max_depth: self.max_depth, next: 0,
+                   parent_done: false, skip_dir: None, last_was_dir: None }
     }
 }
 
@@ -193,6 +201,87 @@ impl DirEntry
     }
 }
 
+impl IntoIter
+{
+    /// walkdir: do not descend into the directory that was yielded last
+    pub fn skip_current_dir(&mut self)
+    {
+        if let Some(d) = self.last_was_dir
+        {
+            self.skip_dir = Some(d);
+        }
+    }
+    pub fn filter_entry<P>(self, predicate: P) -> FilterEntry<P>
+    where
+        P: FnMut(&DirEntry) -> bool,
+    {
+        FilterEntry { it: self, predicate }
+    }
+    fn entry(&self, rel: &[u8; MAX_REL], len: usize, kind: u8, link: bool, depth: usize) -> DirEntry
+    {
+        let mut bytes = self.root.clone();
+        bytes.push(b'/');
+        let mut name_from = bytes.len();
+        let mut i = 0;
+        while i < len && i < MAX_REL
+        {
+            bytes.push(rel[i]);
+            if rel[i] == b'/'
+            {
+                name_from = bytes.len();
+            }
+            i += 1;
+        }
+        DirEntry { path: PathBuf::from(OsString::from_vec(bytes)), ty: FileType { kind }, link, depth, name_from }
+    }
+}
+
+pub struct FilterEntry<P>
+{
+    it: IntoIter,
+    predicate: P,
+}
+
+impl<P> Iterator for FilterEntry<P>
+where
+    P: FnMut(&DirEntry) -> bool,
+{
+    type Item = Result<DirEntry, Error>;
+    fn next(&mut self) -> Option<Self::Item>
+    {
+        loop
+        {
+            let e = match self.it.next()
+            {
+                None => return None,
+                Some(Err(e)) => return Some(Err(e)),
+                Some(Ok(e)) => e,
+            };
+            if !(self.predicate)(&e)
+            {
+                if e.file_type().is_dir()
+                {
+                    self.it.skip_current_dir();
+                }
+                continue;
+            }
+            return Some(Ok(e));
+        }
+    }
+}
+
+impl<P> FilterEntry<P>
+where
+    P: FnMut(&DirEntry) -> bool,
+{
+    pub fn filter_entry(self, predicate: P) -> FilterEntry<P>
+    {
+        // nested filters are outside the model
+        let _ = predicate;
+        self
+    }
+}
+
 impl Iterator for IntoIter
 {
     type Item = Result<DirEntry, Error>;
@@ -206,9 +295,10 @@ impl Iterator for IntoIter
             {
                 return None;
             }
-            self.next += 1;
             if k == 0
             {
+                self.next += 1;
+                self.last_was_dir = None;
                 if self.min_depth > 0
                 {
                     continue;
@@ -234,6 +324,34 @@ impl Iterator for IntoIter
             }
             let e = unsafe { MODEL.entries[k - 1] };
             let depth = e.depth as usize;
+            // an entry at depth 2 is `<dir>/<name>`: its directory is yielded first
+            let mut dir_len = 0;
+            if depth == 2
+            {
+                while dir_len < e.len && dir_len < MAX_REL && e.rel[dir_len] != b'/'
+                {
+                    dir_len += 1;
+                }
+                if !self.parent_done
+                {
+                    self.parent_done = true;
+                    self.skip_dir = None;
+                    if 1 >= self.min_depth && 1 <= self.max_depth
+                    {
+                        self.last_was_dir = Some((e.rel, dir_len));
+                        unsafe { MODEL.yielded += 1 };
+                        return Some(Ok(self.entry(&e.rel, dir_len, KIND_DIR, false, 1)));
+                    }
+                }
+            }
+            self.next += 1;
+            self.parent_done = false;
+            if depth == 2 && self.skip_dir.is_some()
+            {
+                // below a directory the caller asked not to descend into
+                self.skip_dir = None;
+                continue;
+            }
             if depth < self.min_depth || depth > self.max_depth
             {
                 continue;
@@ -241,20 +359,8 @@ impl Iterator for IntoIter
             unsafe { MODEL.yielded += 1 };
             if e.kind == KIND_ERR
             {
+                self.last_was_dir = None;
                 return Some(Err(Error));
-            }
-            let mut bytes = self.root.clone();
-            bytes.push(b'/');
-            let mut name_from = bytes.len();
-            let mut i = 0;
-            while i < e.len && i < MAX_REL
-            {
-                bytes.push(e.rel[i]);
-                if e.rel[i] == b'/'
-                {
-                    name_from = bytes.len();
-                }
-                i += 1;
             }
             let link = e.kind == KIND_LINK_TO_FILE || e.kind == KIND_LINK_TO_DIR;
             let kind = if self.follow_links && e.kind == KIND_LINK_TO_FILE
@@ -269,13 +375,8 @@ impl Iterator for IntoIter
             {
                 e.kind
             };
-            return Some(Ok(DirEntry {
-                path: PathBuf::from(OsString::from_vec(bytes)),
-                ty: FileType { kind },
-                link,
-                depth,
-                name_from,
-            }));
+            self.last_was_dir = if kind == KIND_DIR { Some((e.rel, e.len)) } else { None };
+            return Some(Ok(self.entry(&e.rel, e.len, kind, link, depth)));
         }
     }
 }
